@@ -88,6 +88,9 @@ static inline ChildRes run_child(const std::function<void(Report &)> &fn, Report
     close(pfd[0]); close(efd[0]);
     dup2(efd[1], 2); close(efd[1]);
     alarm(timeout_s);
+#if !defined(__SANITIZE_ADDRESS__)
+    { struct rlimit rl; rl.rlim_cur = rl.rlim_max = (rlim_t) 6 << 30; setrlimit(RLIMIT_AS, &rl); }   // a runaway case must not take the machine down
+#endif
     Report r;
     fn(r);
     FILE *f = fdopen(pfd[1], "w");
